@@ -55,7 +55,11 @@ const DETAILS: &[Details] = &[
         target_os = "macos"
     ))]
     s!(SIGINFO, Ignore),
-    #[cfg(not(target_os = "haiku"))]
+    // The default action of SIGIO (aka SIGPOLL) is to terminate the process on Linux, while the
+    // BSD family ignores it.
+    #[cfg(any(target_os = "linux", target_os = "android"))]
+    s!(SIGIO, Term),
+    #[cfg(not(any(target_os = "haiku", target_os = "linux", target_os = "android")))]
     s!(SIGIO, Ignore),
     // Can't override anyway, but...
     s!(SIGKILL, Term),
